@@ -6,7 +6,7 @@ from html.parser import HTMLParser
 
 MEDIA_JS = ["m1.js", "m2.js", "shared.js", "sub/m3.js"]
 MEDIA_CSS = ["m1.css", "shared.css", "m2.css"]
-NAME_POOLS = ["ascii", "ascii", "nonascii", "dashed", "dotted"]
+NAME_POOLS = ["ascii", "ascii", "nonascii", "dashed", "dotted", "dotted-hex-tail", "underscored-hex"]
 
 
 def pyname(kind, prefix, cname):
@@ -17,6 +17,11 @@ def pyname(kind, prefix, cname):
         return "my-comp-" + base
     if kind == "dotted":
         return "my.comp." + base
+    if kind == "dotted-hex-tail":
+        # last segment made of hex digits only (looks like a hash to anything that guesses by shape); unique per class
+        return f"ui.{base}.{sum(map(ord, base)) % 4096:03x}"
+    if kind == "underscored-hex":
+        return base + "_c0ffee"
     return base
 
 
